@@ -106,6 +106,11 @@ def cases(ctx):
     for i in range(ctx.n(40, 1000)):
         m = models.gen_model(rng, n_ops=rng.randint(1, 4), sinks=True)
         yield {"kind": "relpath", "model": m, "which": rng.randrange(100)}
+    # commands exist only in the *selected* libraries: a model using fuzzy commands loaded with basic + csv only
+    for i in range(ctx.n(60, 2000)):
+        m = models.gen_model(rng, n_ops=rng.randint(2, 6), sinks=rng.random() < 0.5)
+        if any(c["cmd"] in arr.FUZZY_OUTPUT or c["cmd"] == "CvtFromFuzzy" for c in m["commands"]):
+            yield {"kind": "restricted", "model": m, "rseed": rng.randrange(10 ** 9)}
     # (3) pairings
     data_cmds = list(cmdgen.ALL)
     k = 0
@@ -157,6 +162,8 @@ def run_case(ctx, case):
     models.write_table(model["table"], d)
     if kind == "relpath":
         return run_relpath(ctx, case, model, d)
+    if kind == "restricted":
+        return run_restricted(ctx, case, model, d)
     text, _ = models.to_text(model)
     err, prog, log, changed = _run_monitored(ctx, text, d)
     if kind == "valid":
@@ -214,10 +221,43 @@ def _check_attrs(err, exp):
         if d in REQ_TYPE:
             want = REQ_TYPE[d]
         elif d.startswith("list:"):
-            want = "List" if variant in ("scalar", "scalar-number", "tuple") else REQ_TYPE.get(d[5:])
+            want = "List" if variant in ("scalar", "scalar-number", "scalar-zero", "empty-string", "tuple") else REQ_TYPE.get(d[5:])
         if want and not rt.startswith(want):
             return ("required_type", rt)
     return None
+
+
+def run_restricted(ctx, case, model, d):
+    """Only basic + csv are selected: the first fuzzy-library command in the file does not exist for this program."""
+    from mpilot.program import Program
+    libs = ("mpilot.libraries.eems.basic", "mpilot.libraries.eems.csv")
+    text, _ = models.to_text(model)
+    fuzzy_lib = [c["cmd"] for c in model["commands"] if c["cmd"] in arr.FUZZY_OUTPUT or c["cmd"] == "CvtFromFuzzy"]
+    fuzzy_lib = [c for c in fuzzy_lib if c not in ("NormalizeZScore",)]
+    before = trace.snapshot_dir(d)
+    log = trace.start(watch_dirs=[d])
+    err, prog = None, None
+    try:
+        prog = Program.from_source(text, libraries=libs, working_dir=d)
+        trace.attach(prog)
+        prog.run()
+    except Exception as e:
+        err = e
+    finally:
+        trace.stop()
+    ctx.count("rejections_checked")
+    ctx.feature(("restricted", fuzzy_lib[0]))
+    execs, writes, changed, finished = _side_effects(log, trace.diff_snapshots(before, trace.snapshot_dir(d)), prog)
+    if err is None:
+        ctx.fail("unselected-library-command:accepted", {"libraries": list(libs), "command": fuzzy_lib[0], "text": text[:1000]})
+    elif type(err).__name__ != "CommandDoesNotExist":
+        ctx.fail("unselected-library-command:rejected-with-%s" % type(err).__name__, {"error": str(err)[:300]})
+    elif getattr(err, "name", None) != fuzzy_lib[0]:
+        ctx.fail("unselected-library-command:error-attribute-name", {"got": getattr(err, "name", None), "want": fuzzy_lib[0]})
+    if execs or writes or changed or finished:
+        ctx.fail("unselected-library-command:side-effect-before-rejection", {"executed": execs[:6]})
+    else:
+        ctx.count("side_effect_free_rejections")
 
 
 def run_relpath(ctx, case, model, d):
